@@ -29,9 +29,13 @@ PROPS["C20"]["level_text"] = (
     "for every value < 2^48 against the regenerated Go write tables with the specification's prefix table as decoder, "
     "uvc_write_every_alignment, uvc_is_spec_table (whole finite tables), dod_roundtrip and gorilla_roundtrip for every "
     "sequence from any synchronised state, gorilla_is_spec (register-level encoder = spec bits), bool/string round "
-    "trips, dictstring_sync, dict_ref_always, overread_reported_spec; overread_reported is proved FALSE for the Go "
-    "BitsReader (finding overread-56). Not yet proved: refinement of the BitsReader register to bit lists (the reader "
-    "side is tied by op-for-op correspondence only).")
+    "trips, dictstring_sync, dict_ref_always, overread_reported_spec; register-level BitsReader (fast refill path, slow "
+    "path near the end of the buffer, 56 padding bits, widths up to 64): bitsreader_refines_spec (ReadBits = the "
+    "specification's bit reader at every reachable state), overread_reported_bitsreader (every buffer, every sequence of "
+    "widths: Error() is nil exactly while the reads stay inside the buffer, and then the values are the buffer's bits; "
+    "holds since fix f47ea21), bits_roundtrip (WriteBits* ; Close ; ReadBits* returns the values). Not proved at "
+    "register level: ReadUvarintCompact (peek 56 + read tables; read_tables_ok covers the tables, the rest is tied by "
+    "op-for-op correspondence over all 65 classes x 64 alignments).")
 
 PROPS["C09"] = {
     "lean_modules": ["Stef.Props.C09"],
